@@ -125,11 +125,16 @@ Qed.
 Lemma is_start_zero o : is_start o 0.
 Proof. exists 0. split; [lia|reflexivity]. Qed.
 
+(* fused instructions produced by the pass: a non-magic head variable *)
+Definition fused_shape (g : instr) : Prop :=
+  exists n attrs, is_magic n = false /\ (g = LoadPath (n :: attrs) \/ g = WritePath (n :: attrs)).
+
 Definition go_spec (jt : nat -> bool) (i olen : nat) (rest : chunk) (res : chunk * list nat) : Prop :=
   expand (map fst (fst res)) = map fst rest /\
   snd res = imap_of olen (map fst (fst res)) /\
   (forall k, k <= length rest -> (k = length rest \/ jt (i + k) = true) -> is_start (map fst (fst res)) k) /\
-  (forall x, In x (fst res) -> is_fused (fst x) = false -> In x rest).
+  (forall x, In x (fst res) -> is_fused (fst x) = false -> In x rest) /\
+  (forall x, In x (fst res) -> is_fused (fst x) = true -> fused_shape (fst x)).
 
 Lemma unfused_tail x p : unfused (x :: p) -> unfused p.
 Proof. intros H y Hy. apply H. right. exact Hy. Qed.
@@ -143,7 +148,7 @@ Lemma go_spec_plain jt i olen x rest' o m :
   go_spec jt (S i) (S olen) rest' (o, m) ->
   go_spec jt i olen (x :: rest') (x :: o, olen :: m).
 Proof.
-  intros Hx (H1 & H2 & H3 & H4). cbn [fst snd] in *. unfold go_spec. cbn [fst snd].
+  intros Hx (H1 & H2 & H3 & H4 & H5). cbn [fst snd] in *. unfold go_spec. cbn [fst snd].
   assert (Hex : expand1 (fst x) = [fst x]) by (destruct x as [[] ?]; cbn in *; try reflexivity; discriminate).
   assert (Hg : gsize (fst x) = 1) by (unfold gsize; rewrite Hex; reflexivity).
   repeat split.
@@ -154,20 +159,21 @@ Proof.
     apply H3; [cbn in Hk; lia|]. destruct Hc as [Hc|Hc]; [left; cbn in Hc; lia|right].
     replace (S i + k) with (i + S k) by lia. exact Hc.
   - intros y [<-|Hy] Hf; [left; reflexivity|right; apply H4; assumption].
+  - intros y [<-|Hy] Hf; [congruence|apply H5; assumption].
 Qed.
 
 (* one fusing step: a group of 1 + |attrs| (+1 when a write is absorbed) instructions *)
 Lemma go_spec_group jt i olen n sp pre tailw r g gsp o m j :
   map fst pre = map LoadAttr (match g with LoadPath (_ :: a) | WritePath (_ :: a) => a | _ => [] end) ->
   expand1 g = LoadName n :: map fst pre ++ map fst tailw ->
-  is_fused g = true ->
+  is_fused g = true -> fused_shape g ->
   j = S i + length pre + length tailw ->
   (forall k, 0 < k -> k <= length pre + length tailw -> jt (i + k) = false) ->
   go_spec jt j (S olen) r (o, m) ->
   go_spec jt i olen ((LoadName n, sp) :: pre ++ tailw ++ r)
           ((g, gsp) :: o, repeat olen (S (length pre + length tailw)) ++ m).
 Proof.
-  intros _ Hex Hf Hj Hnt (G1 & G2 & G3 & G4). cbn [fst snd] in *. unfold go_spec. cbn [fst snd].
+  intros _ Hex Hf Hshape Hj Hnt (G1 & G2 & G3 & G4 & G5). cbn [fst snd] in *. unfold go_spec. cbn [fst snd].
   assert (Hgs : gsize g = S (length pre + length tailw)).
   { unfold gsize. rewrite Hex. cbn. rewrite app_length, !map_length. reflexivity. }
   repeat split.
@@ -186,6 +192,7 @@ Proof.
       replace (j + (q - S (length pre + length tailw))) with (i + q) by lia. exact Hc.
   - intros y [<-|Hy] Hfy; [cbn in Hfy; congruence|].
     right. apply in_or_app. right. apply in_or_app. right. apply G4; assumption.
+  - intros y [<-|Hy] Hfy; [exact Hshape|apply G5; assumption].
 Qed.
 
 Lemma opt_go_spec jt : forall fuel i olen rest,
@@ -195,8 +202,9 @@ Proof.
   induction fuel as [|f IH]; intros i olen rest Hf Hu; [lia|].
   cbn [opt_go]. destruct rest as [|[ins sp] rest'].
   - unfold go_spec. cbn [fst snd map expand flat_map imap_of length]. split; [reflexivity|].
-    split; [reflexivity|]. split.
+    split; [reflexivity|]. split; [|split].
     + intros k Hk _. assert (k = 0) by lia. subst. apply is_start_zero.
+    + intros x [].
     + intros x [].
   - assert (Hu' : unfused rest') by (eapply unfused_tail; eauto).
     assert (Hins : is_fused ins = false) by (apply (Hu (ins, sp)); left; reflexivity).
@@ -234,6 +242,7 @@ Proof.
         + rewrite Hpre. reflexivity.
         + cbn [expand1 map fst]. rewrite Hpre. rewrite app_nil_r. reflexivity.
         + reflexivity.
+        + exists n, attrs. split; [exact Emagic|left; reflexivity].
         + cbn [length]. lia.
         + intros q Hq0 Hq. cbn [length] in Hq. replace (i + q) with (S i + (q - 1)) by lia. apply Hnt. lia.
         + exact Hgo. }
@@ -251,6 +260,7 @@ Proof.
     + rewrite Hpre. reflexivity.
     + cbn [expand1 map fst]. rewrite Hpre. reflexivity.
     + reflexivity.
+    + exists n, attrs. split; [exact Emagic|right; reflexivity].
     + cbn [length]. lia.
     + intros q Hq0 Hq. cbn [length] in Hq.
       destruct (Nat.eq_dec q (S (length pre))) as [->|Hne].
@@ -331,6 +341,14 @@ Qed.
 Lemma Forall2_length' {A B} (R : A -> B -> Prop) a b : Forall2 R a b -> length a = length b.
 Proof. induction 1; cbn; congruence. Qed.
 
+Lemma Forall2_in_r {A B} (R : A -> B -> Prop) l l' : Forall2 R l l' ->
+  forall y, In y l' -> exists x, In x l /\ R x y.
+Proof.
+  induction 1 as [|a b l l' Hab Hl IH]; intros y Hy; [contradiction|].
+  destruct Hy as [<-|Hy]; [exists a; split; [left; reflexivity|exact Hab]|].
+  destruct (IH y Hy) as (x & Hx & Hr). exists x. split; [right; exact Hx|exact Hr].
+Qed.
+
 Lemma rel_refl_notarget o i : target_of i = None -> rel o i i.
 Proof. intros H. unfold rel. rewrite H. reflexivity. Qed.
 
@@ -371,13 +389,14 @@ Theorem optimize_structure p :
     Forall2 (rel (map fst o)) (expand (map fst o)) (map fst p) /\
     (* no merged group contains a jump target other than as its first instruction *)
     (forall t, t <= length p -> (t = length p \/ is_jump_target p t = true) -> is_start (map fst o) t) /\
-    (* fused instructions only arise from fusion; everything else is carried over *)
-    length (expand (map fst o)) = length p.
+    length (expand (map fst o)) = length p /\
+    (* fused instructions have a non-magic head variable *)
+    (forall g, In g (map fst o) -> is_fused g = true -> fused_shape g).
 Proof.
   intros Hu Hr. unfold optimize, optimize_raw.
   pose proof (opt_go_spec (is_jump_target p) (S (length p)) 0 0 p ltac:(lia) Hu) as Hs.
   destruct (opt_go (S (length p)) (is_jump_target p) 0 0 p) as [o_raw m] eqn:E.
-  destruct Hs as (S1 & S2 & S3 & S4). cbn [fst snd] in *.
+  destruct Hs as (S1 & S2 & S3 & S4 & S5). cbn [fst snd] in *.
   set (P := fun t n => n <= length (map fst o_raw) /\ group_start (map fst o_raw) n = t).
   destruct (map_opt_retarget P m o_raw) as (o & Ho & Hf).
   { intros x t Hx Ht. assert (Hxp : In x p) by (apply S4; [exact Hx|eapply target_unfused; eauto]).
@@ -391,7 +410,7 @@ Proof.
     by (eapply group_start_retarget; eauto).
   assert (Hlen : length (map fst o) = length (map fst o_raw))
     by (rewrite !map_length; symmetry; eapply Forall2_length'; eauto).
-  split; [|split].
+  split; [|split; [|split]].
   - rewrite <- S1. eapply expand_rel; [|exact Hf].
     intros t n [Hn Hg]. rewrite Hlen, Hgs. auto.
   - intros t Ht Hc. destruct (S3 t Ht) as (n & Hn & Hg).
@@ -399,6 +418,12 @@ Proof.
     exists n. rewrite Hlen, Hgs. auto.
   - rewrite <- (map_length fst p), <- S1.
     rewrite <- (group_start_all (map fst o)), <- (group_start_all (map fst o_raw)), Hgs, Hlen. reflexivity.
+  - intros g Hg Hfg. apply in_map_iff in Hg. destruct Hg as (y & <- & Hy).
+    destruct (Forall2_in_r _ _ _ Hf y Hy) as (x & Hx & _ & Hxy).
+    destruct (target_of (fst x)) as [t|] eqn:Et.
+    + destruct Hxy as (n & Hyx & _). rewrite Hyx in Hfg.
+      apply target_unfused in Et. destruct (fst x); cbn in *; congruence.
+    + rewrite Hxy in *. apply (S5 x Hx Hfg).
 Qed.
 
 (* compiled chunks never contain fused instructions and their targets are in range: both are
